@@ -119,6 +119,7 @@ func mutate(r *common.Rand, s []byte) []byte {
 type inSpec struct {
 	Unlock *[]byte `json:"unlock"`
 	Seq    uint32  `json:"seq"`
+	Nil    bool    `json:"nil,omitempty"` // a nil element of tx.Inputs
 }
 type txSpec struct {
 	Ins     []inSpec `json:"ins"`
@@ -154,6 +155,10 @@ func (o *optsSpec) build(dbg interpreter.Debugger) []interpreter.ExecutionOption
 			tx = bt.NewTx()
 			tx.Version, tx.LockTime = o.Tx.Version, o.Tx.Lock
 			for _, i := range o.Tx.Ins {
+				if i.Nil {
+					tx.Inputs = append(tx.Inputs, nil)
+					continue
+				}
 				in := &bt.Input{SequenceNumber: i.Seq, UnlockingScript: scr(i.Unlock)}
 				_ = in.PreviousTxIDAdd(make([]byte, 32))
 				tx.Inputs = append(tx.Inputs, in)
@@ -198,7 +203,11 @@ func (o *optsSpec) coq(res interpgen.Result) string {
 			if k > 0 {
 				ins += "; "
 			}
-			ins += fmt.Sprintf("mkOIn %s %d%%Z", coqOptBytes(i.Unlock), i.Seq)
+			if i.Nil {
+				ins += "None"
+			} else {
+				ins += fmt.Sprintf("Some (mkOIn %s %d%%Z)", coqOptBytes(i.Unlock), i.Seq)
+			}
 		}
 		tx = fmt.Sprintf("(Some (mkOTx %s] %d%%Z %d%%Z))", ins, o.Tx.Lock, o.Tx.Version)
 	}
@@ -234,7 +243,7 @@ func badContexts(r *common.Rand) {
 						if nin >= 0 {
 							o.Tx = &txSpec{Lock: []uint32{0, 1, 500000000}[r.Intn(3)], Version: []uint32{1, 2}[r.Intn(2)]}
 							for i := 0; i < nin; i++ {
-								o.Tx.Ins = append(o.Tx.Ins, inSpec{Unlock: pick(), Seq: []uint32{0, 0xffffffff, 1 << 31}[r.Intn(3)]})
+								o.Tx.Ins = append(o.Tx.Ins, inSpec{Unlock: pick(), Seq: []uint32{0, 0xffffffff, 1 << 31}[r.Intn(3)], Nil: r.Chance(15)})
 							}
 						}
 						switch prevKind {
@@ -258,7 +267,7 @@ func badContexts(r *common.Rand) {
 							if o.Prev != nil && o.Prev.Lock != nil {
 								o.Lock = o.Prev.Lock
 							}
-							if o.Tx != nil && idx >= 0 && idx < len(o.Tx.Ins) && o.Tx.Ins[idx].Unlock != nil {
+							if o.Tx != nil && idx >= 0 && idx < len(o.Tx.Ins) && o.Tx.Ins[idx].Unlock != nil && !o.Tx.Ins[idx].Nil {
 								o.Unlock = o.Tx.Ins[idx].Unlock
 							}
 						}
@@ -300,7 +309,9 @@ func badContexts(r *common.Rand) {
 			o.Lock, o.Unlock = nonNil(), o.Tx.Ins[o.Idx].Unlock
 		}
 		if r.Chance(33) {
-			switch r.Intn(6) {
+			switch r.Intn(7) {
+			case 6: // one element of tx.Inputs is nil: the requested one or another
+				o.Tx.Ins[r.Intn(len(o.Tx.Ins))].Nil = true
 			case 0:
 				o.Idx = idxs[r.Intn(len(idxs))]
 			case 1:
@@ -387,6 +398,7 @@ func runC07() {
 	badContexts(r)
 	hugeCounts()
 	interpgen.BigNumSweep(func(p *interpgen.Program) { emitOrGoOnly(p) })
+	interpgen.ArithEdges(func(p *interpgen.Program) { emitOrGoOnly(p) }, false)
 	interpgen.ScriptBoundary(func(p *interpgen.Program) { emitOrGoOnly(p) })
 	nShapes := 1200
 	if c.Thorough() {
